@@ -16,3 +16,511 @@ Fixpoint F3_class (segs : list (N * N)) : bool :=
    term frequency exceeds its decoded (rounded-down) field length scores above it.
    Input: (term_freq, decoded field length) of the matching postings. *)
 Definition F6_class (postings : list (N * N)) : bool := existsb (fun p => N.ltb (snd p) (fst p)) postings.
+
+(* =====================================================================================
+   Model.  A TermScorer is seen through the two cursors the pruning code uses:
+   - the DEEP cursor (SegmentPostings: `doc()`, `score()`, `advance()`, `seek(target)`): the list of
+     remaining postings (doc, score), ascending;
+   - the SHALLOW cursor (SkipReader: `seek_block(target)`, `last_doc_in_block()`,
+     `block_max_score()`): the list of remaining blocks (last doc, block max); the last block of a
+     posting list has last doc = TERMINATED (src/postings/skip.rs) and is never dropped.
+   Scores are exact numbers (Z: an ordered commutative group; BM25 scores are non-negative, the
+   threshold may be negative: Score::MIN).  Bit-packing, skip-list encoding and the f32 arithmetic
+   are not modelled (C07 / C12 / C13).  The collector is a state machine [step] with an observable
+   threshold [thr] (TopNHeap::push + `top_n.threshold.unwrap_or(Score::MIN)`). *)
+Local Open Scope Z_scope.
+
+Definition TERM : N := WAND_TERMINATED.
+
+Record block : Type := { b_last : N; b_max : Z }.
+Record scorer : Type := { sc_post : list (N * Z); sc_blocks : list block; sc_max : Z }.
+
+Definition doc (s : scorer) : N := match sc_post s with (d, _) :: _ => d | [] => TERM end.
+Definition score (s : scorer) : Z := match sc_post s with (_, x) :: _ => x | [] => 0 end.
+
+(* SkipReader::seek: `while self.last_doc_in_block < target { self.advance() }`; the final block
+   (last doc = TERMINATED) is never passed *)
+Fixpoint seek_blocks (t : N) (bl : list block) : list block :=
+  match bl with
+  | b :: ((_ :: _) as r) => if N.ltb (b_last b) t then seek_blocks t r else bl
+  | _ => bl
+  end.
+Definition seek_block (t : N) (s : scorer) : scorer :=
+  {| sc_post := sc_post s; sc_blocks := seek_blocks t (sc_blocks s); sc_max := sc_max s |}.
+Definition block_max (s : scorer) : Z := match sc_blocks s with b :: _ => b_max b | [] => sc_max s end.
+Definition last_doc_in_block (s : scorer) : N := match sc_blocks s with b :: _ => b_last b | [] => TERM end.
+
+Fixpoint drop_lt (t : N) (p : list (N * Z)) : list (N * Z) :=
+  match p with
+  | (d, x) :: r => if N.ltb d t then drop_lt t r else p
+  | [] => []
+  end.
+(* DocSet::seek for SegmentPostings: no-op when already at/after the target *)
+Definition seek (t : N) (s : scorer) : scorer :=
+  if N.leb t (doc s) then s
+  else seek_block t {| sc_post := drop_lt t (sc_post s); sc_blocks := sc_blocks s; sc_max := sc_max s |}.
+(* DocSet::advance: next posting; crossing a block boundary advances the skip reader *)
+Definition advance (s : scorer) : scorer :=
+  let p := tl (sc_post s) in
+  seek_block (match p with (d, _) :: _ => d | [] => TERM end) {| sc_post := p; sc_blocks := sc_blocks s; sc_max := sc_max s |}.
+
+(* block max of the block holding document d *)
+Fixpoint bmax_at (bl : list block) (d : N) (dflt : Z) : Z :=
+  match bl with
+  | b :: r => if N.leb d (b_last b) then b_max b else bmax_at r d dflt
+  | [] => dflt
+  end.
+
+Section Collector.
+  Variable St : Type.
+  Variable thr : St -> Z.
+  Variable step : St -> N -> Z -> St.
+  (* the callback never lowers the threshold it returns *)
+  Hypothesis thr_mono : forall st d x, thr st <= thr (step st d x).
+
+  Definition offer (st : St) (d : N) (x : Z) : St := if Z.ltb (thr st) x then step st d x else st.
+  (* exhaustive scoring: every posting, in ascending doc order, offered to the collector *)
+  Definition exhaustive (p : list (N * Z)) (st : St) : St := fold_left (fun st dx => offer st (fst dx) (snd dx)) p st.
+
+  Lemma thr_offer st d x : thr st <= thr (offer st d x).
+  Proof. unfold offer. destruct (Z.ltb (thr st) x); [apply thr_mono|lia]. Qed.
+
+  Lemma exhaustive_dead p st : (forall d x, In (d, x) p -> x <= thr st) -> exhaustive p st = st.
+  Proof.
+    revert st. induction p as [|[d x] r IH]; intros st H; [reflexivity|].
+    unfold exhaustive. cbn [fold_left fst snd]. unfold offer at 2.
+    destruct (Z.ltb_spec (thr st) x) as [Hlt|_]; [specialize (H d x (or_introl eq_refl)); lia|].
+    apply IH. intros d' x' Hin. apply (H d' x'). now right.
+  Qed.
+  Lemma exhaustive_app p q st : exhaustive (p ++ q) st = exhaustive q (exhaustive p st).
+  Proof. unfold exhaustive. apply fold_left_app. Qed.
+
+  (* ------------------------------------------------------------------ block_wand_single_scorer *)
+  Inductive phase : Type := PSkip | PScore.
+
+  (* [lo] is the local variable `doc`; None = out of fuel *)
+  Fixpoint single (fuel : nat) (ph : phase) (sc : scorer) (lo : N) (st : St) : option St :=
+    match fuel with
+    | O => None
+    | S f =>
+        match ph with
+        | PSkip =>
+            (* while scorer.block_max_score() <= threshold { ... } *)
+            if Z.leb (block_max sc) (thr st) then
+              let last := last_doc_in_block sc in
+              if N.eqb last TERM then Some st
+              else single f PSkip (seek_block (last + 1) sc) (last + 1)%N st
+            else
+              let sc' := seek lo sc in
+              if N.eqb (doc sc') TERM then Some st else single f PScore sc' (doc sc') st
+        | PScore =>
+            let st' := offer st lo (score sc) in
+            if N.eqb lo (last_doc_in_block sc) then single f PSkip (seek_block (lo + 1) sc) (lo + 1)%N st'
+            else
+              let sc' := advance sc in
+              if N.eqb (doc sc') TERM then Some st' else single f PScore sc' (doc sc') st'
+        end
+    end.
+
+  Definition block_wand_single_scorer (fuel : nat) (sc : scorer) (st : St) : option St := single fuel PSkip sc (doc sc) st.
+
+  (* well-formedness: ascending postings below TERMINATED *)
+  Fixpoint asc_from (lo : N) (p : list (N * Z)) : Prop :=
+    match p with [] => True | (d, _) :: r => (lo <= d)%N /\ (d < TERM)%N /\ asc_from (d + 1) r end.
+  (* the block max of the block of every remaining posting at or after [lo] bounds its score *)
+  Definition bounded (lo : N) (sc : scorer) : Prop :=
+    forall d x, In (d, x) (sc_post sc) -> (lo <= d)%N -> x <= bmax_at (sc_blocks sc) d (sc_max sc).
+  (* block list: ends with the TERMINATED block *)
+  Fixpoint blocks_ok (bl : list block) : Prop :=
+    match bl with [] => False | [b] => b_last b = TERM | b :: r => (b_last b < TERM)%N /\ blocks_ok r end.
+
+  Lemma asc_from_weaken lo lo' p : (lo' <= lo)%N -> asc_from lo p -> asc_from lo' p.
+  Proof. destruct p as [|[d x] r]; cbn; [auto|]. intros H (H1 & H2 & H3). repeat split; auto; lia. Qed.
+  Lemma asc_from_in lo p d x : asc_from lo p -> In (d, x) p -> (lo <= d < TERM)%N.
+  Proof.
+    revert lo. induction p as [|[d0 x0] r IH]; intros lo H Hin; [contradiction|]. cbn in H. destruct H as (H1 & H2 & H3).
+    destruct Hin as [E|Hin]; [injection E as <- <-; lia|]. specialize (IH _ H3 Hin). lia.
+  Qed.
+  Lemma drop_lt_asc lo t p : asc_from lo p -> asc_from (N.max lo t) (drop_lt t p).
+  Proof.
+    revert lo. induction p as [|[d x] r IH]; intros lo H; [exact I|]. cbn in H. destruct H as (H1 & H2 & H3). cbn [drop_lt].
+    destruct (N.ltb_spec d t).
+    - eapply asc_from_weaken; [|apply IH; exact H3]. lia.
+    - cbn. repeat split; auto; lia.
+  Qed.
+  Lemma drop_lt_incl t p d x : In (d, x) (drop_lt t p) -> In (d, x) p.
+  Proof.
+    induction p as [|[d0 x0] r IH]; [auto|]. cbn [drop_lt]. destruct (N.ltb d0 t); [intros H; right; auto|auto].
+  Qed.
+  Lemma drop_lt_split t p lo : asc_from lo p ->
+    exists dead, p = dead ++ drop_lt t p /\ forall d x, In (d, x) dead -> (d < t)%N.
+  Proof.
+    revert lo. induction p as [|[d x] r IH]; intros lo H; [exists []; split; [reflexivity|intros ? ? []]|].
+    cbn in H. destruct H as (H1 & H2 & H3). cbn [drop_lt]. destruct (N.ltb_spec d t).
+    - destruct (IH _ H3) as (dead & E & Hd). exists ((d, x) :: dead). split; [cbn; now rewrite <- E|].
+      intros d' x' [E'|Hin]; [injection E' as <- <-; assumption|eauto].
+    - exists []. split; [reflexivity|intros ? ? []].
+  Qed.
+  Lemma drop_lt_ge t p lo d x : asc_from lo p -> In (d, x) (drop_lt t p) -> (t <= d)%N.
+  Proof.
+    revert lo. induction p as [|[d0 x0] r IH]; intros lo H Hin; [contradiction|]. cbn in H. destruct H as (H1 & H2 & H3).
+    cbn [drop_lt] in Hin. destruct (N.ltb_spec d0 t); [eauto|].
+    destruct Hin as [E|Hin]; [injection E as <- <-; lia|]. pose proof (asc_from_in _ _ _ _ H3 Hin). lia.
+  Qed.
+  Lemma drop_lt_idem t t' p : (t' <= t)%N -> drop_lt t (drop_lt t' p) = drop_lt t p.
+  Proof.
+    intros Ht. induction p as [|[d x] r IH]; [reflexivity|]. cbn [drop_lt].
+    destruct (N.ltb_spec d t').
+    - rewrite IH. destruct (N.ltb_spec d t); [reflexivity|lia].
+    - reflexivity.
+  Qed.
+
+  Lemma seek_blocks_cons2 t b b' r :
+    seek_blocks t (b :: b' :: r) = if N.ltb (b_last b) t then seek_blocks t (b' :: r) else b :: b' :: r.
+  Proof. reflexivity. Qed.
+
+  Lemma seek_blocks_ok t bl : blocks_ok bl -> blocks_ok (seek_blocks t bl).
+  Proof.
+    induction bl as [|b r IH]; [auto|]. destruct r as [|b' r']; [auto|]. intros H.
+    rewrite seek_blocks_cons2. destruct (N.ltb (b_last b) t); [apply IH; apply H|exact H].
+  Qed.
+  Lemma seek_blocks_len t bl : (length (seek_blocks t bl) <= length bl)%nat.
+  Proof.
+    induction bl as [|b r IH]; [auto|]. destruct r as [|b' r']; [auto|].
+    rewrite seek_blocks_cons2. destruct (N.ltb (b_last b) t); [cbn [length] in *; lia|lia].
+  Qed.
+  Lemma seek_blocks_bmax t bl d dflt : (t <= d)%N -> bmax_at (seek_blocks t bl) d dflt = bmax_at bl d dflt.
+  Proof.
+    intros Ht. induction bl as [|b r IH]; [reflexivity|]. destruct r as [|b' r']; [reflexivity|].
+    rewrite seek_blocks_cons2. destruct (N.ltb_spec (b_last b) t); [|reflexivity].
+    rewrite IH. cbn [bmax_at]. destruct (N.leb_spec d (b_last b)); [lia|reflexivity].
+  Qed.
+  (* skipping past the head block drops it (unless it is the final block) *)
+  Lemma seek_blocks_past b r : r <> [] -> (length (seek_blocks (b_last b + 1) (b :: r)) <= length r)%nat.
+  Proof.
+    destruct r as [|b' r']; [congruence|]. intros _. rewrite seek_blocks_cons2.
+    destruct (N.ltb_spec (b_last b) (b_last b + 1)); [apply seek_blocks_len|lia].
+  Qed.
+
+  (* state invariant *)
+  Definition wf (lo : N) (sc : scorer) : Prop :=
+    asc_from 0 (sc_post sc) /\ blocks_ok (sc_blocks sc) /\ bounded lo sc.
+
+  Lemma wf_seek_block lo t sc : wf lo sc -> (t <= lo)%N -> wf lo (seek_block t sc).
+  Proof.
+    intros (A & B & C) Ht. split; [exact A|]. split; [now apply seek_blocks_ok|].
+    intros d x Hin Hd. cbn [seek_block sc_blocks sc_max sc_post] in *. rewrite seek_blocks_bmax by lia. now apply C.
+  Qed.
+  Lemma wf_raise lo lo' sc : wf lo sc -> (lo <= lo')%N -> wf lo' sc.
+  Proof. intros (A & B & C) H. repeat split; auto. intros d x Hin Hd. apply C; [exact Hin|lia]. Qed.
+
+  Definition measure (ph : phase) (sc : scorer) (lo : N) : nat :=
+    match ph with
+    | PSkip => (2 * length (drop_lt lo (sc_post sc)) + length (sc_blocks sc) + 1)%nat
+    | PScore => (2 * length (sc_post sc) + length (sc_blocks sc))%nat
+    end.
+
+  Lemma drop_lt_len t p : (length (drop_lt t p) <= length p)%nat.
+  Proof. induction p as [|[d x] r IH]; [auto|]. cbn [drop_lt]. destruct (N.ltb d t); cbn [length] in *; lia. Qed.
+  Lemma drop_lt_mono_len t t' p lo : asc_from lo p -> (t <= t')%N -> (length (drop_lt t' p) <= length (drop_lt t p))%nat.
+  Proof. intros H Ht. rewrite <- (drop_lt_idem t' t p Ht). apply drop_lt_len. Qed.
+
+  Lemma doc_TERM_nil sc : asc_from 0 (sc_post sc) -> doc sc = TERM -> sc_post sc = [].
+  Proof. unfold doc. destruct (sc_post sc) as [|[d x] r]; [auto|]. cbn. intros (_ & H & _) E. lia. Qed.
+
+
+  Lemma seek_blocks_head t bl : blocks_ok bl -> (t <= TERM)%N ->
+    match seek_blocks t bl with b :: _ => (t <= b_last b)%N | [] => False end.
+  Proof.
+    induction bl as [|b r IH]; [auto|]. destruct r as [|b' r'].
+    - cbn. intros -> H. exact H.
+    - intros [H1 H2] Ht. rewrite seek_blocks_cons2. destruct (N.ltb_spec (b_last b) t) as [Hlt|Hge]; [apply IH; auto|exact Hge].
+  Qed.
+
+  (* Soundness and termination, together: with fuel above the measure the run ends (Some) in exactly
+     the state exhaustive scoring reaches. *)
+  Lemma single_sound : forall fuel ph sc lo st,
+    (measure ph sc lo < fuel)%nat -> wf lo sc ->
+    match ph with
+    | PSkip => (lo <= last_doc_in_block sc)%N ->
+               single fuel PSkip sc lo st = Some (exhaustive (drop_lt lo (sc_post sc)) st)
+    | PScore => lo = doc sc -> sc_post sc <> [] -> single fuel PScore sc lo st = Some (exhaustive (sc_post sc) st)
+    end.
+  Proof.
+    induction fuel as [|f IH]; intros ph sc lo st Hm Hwf; [lia|].
+    pose proof Hwf as (A & B & C). destruct ph.
+    - (* PSkip *)
+      intros Hlo. cbn [single]. destruct (Z.leb_spec (block_max sc) (thr st)) as [Hle|Hgt].
+      + (* the whole current block cannot beat the threshold *)
+        destruct (sc_blocks sc) as [|b r] eqn:Eb; [contradiction|].
+        unfold last_doc_in_block, block_max in *. rewrite Eb in *.
+        assert (Hdead : forall d x, In (d, x) (sc_post sc) -> (lo <= d <= b_last b)%N -> x <= thr st).
+        { intros d x Hin Hd. specialize (C d x Hin ltac:(lia)). rewrite Eb in C. cbn [bmax_at] in C.
+          destruct (N.leb_spec d (b_last b)); lia. }
+        destruct (N.eqb_spec (b_last b) TERM) as [Et|Ent].
+        * f_equal. symmetry. apply exhaustive_dead. intros d x Hin.
+          pose proof (drop_lt_ge _ _ _ _ _ A Hin). apply drop_lt_incl in Hin.
+          pose proof (asc_from_in _ _ _ _ A Hin). apply (Hdead d x Hin). lia.
+        * assert (Hr : r <> []) by (destruct r; [cbn in B; congruence|congruence]).
+          assert (HbT : (b_last b < TERM)%N) by (destruct r; [congruence|apply B]).
+          pose proof (seek_blocks_past b r Hr) as Hlen.
+          assert (Hwf' : wf (b_last b + 1) (seek_block (b_last b + 1) sc)).
+          { apply wf_seek_block; [|lia]. apply (wf_raise lo); [exact Hwf|lia]. }
+          specialize (IH PSkip (seek_block (b_last b + 1) sc) (b_last b + 1)%N st).
+          cbn [seek_block sc_post sc_blocks] in IH. rewrite Eb in IH. rewrite IH.
+          -- f_equal.
+             rewrite <- (drop_lt_idem (b_last b + 1) lo (sc_post sc)) by lia.
+             destruct (drop_lt_split (b_last b + 1) (drop_lt lo (sc_post sc)) _ (drop_lt_asc 0 lo _ A)) as (dead & E & Hd).
+             rewrite E at 2. rewrite exhaustive_app. f_equal. symmetry. apply exhaustive_dead.
+             intros d x Hin. assert (Hin' : In (d, x) (drop_lt lo (sc_post sc))) by (rewrite E; apply in_or_app; now left).
+             pose proof (drop_lt_ge _ _ _ _ _ A Hin'). apply drop_lt_incl in Hin'. specialize (Hd d x Hin).
+             apply (Hdead d x Hin'). lia.
+          -- cbn [measure seek_block sc_post sc_blocks] in *. rewrite Eb in Hm |- *. cbn [length] in Hm.
+             pose proof (drop_lt_mono_len lo (b_last b + 1) (sc_post sc) 0 A ltac:(lia)). lia.
+          -- exact Hwf'.
+          -- pose proof (seek_blocks_head (b_last b + 1) (b :: r) B ltac:(lia)) as Hh.
+             destruct (seek_blocks (b_last b + 1) (b :: r)); [contradiction|exact Hh].
+      + (* the block may hold a winner: load it *)
+        assert (Hs : sc_post (seek lo sc) = drop_lt lo (sc_post sc) /\ wf lo (seek lo sc) /\
+                     (length (sc_blocks (seek lo sc)) <= length (sc_blocks sc))%nat).
+        { unfold seek. destruct (N.leb_spec lo (doc sc)) as [Hd|Hd].
+          - split; [|split; [exact Hwf|lia]]. unfold doc in Hd. destruct (sc_post sc) as [|[d x] r]; [reflexivity|].
+            cbn [drop_lt]. destruct (N.ltb_spec d lo); [lia|reflexivity].
+          - cbn [seek_block sc_post sc_blocks]. split; [reflexivity|]. split; [|apply seek_blocks_len].
+            apply wf_seek_block; [|lia]. split; [|split; [exact B|]].
+            + cbn [sc_post]. eapply asc_from_weaken; [|apply (drop_lt_asc 0 lo _ A)]. lia.
+            + intros d x Hin Hdlo. cbn [sc_post sc_blocks sc_max] in *. apply drop_lt_incl in Hin. now apply C. }
+        destruct Hs as (Ep & Hwf' & Hbl).
+        destruct (N.eqb_spec (doc (seek lo sc)) TERM) as [Et|Ent].
+        * f_equal. rewrite <- Ep. rewrite (doc_TERM_nil _ (proj1 Hwf') Et). reflexivity.
+        * specialize (IH PScore (seek lo sc) (doc (seek lo sc)) st). cbn beta iota in IH. rewrite IH; [now rewrite Ep| | |reflexivity|].
+          -- cbn [measure] in *. rewrite Ep. lia.
+          -- destruct Hwf' as (A' & B' & C'). split; [exact A'|split; [exact B'|]].
+             intros d x Hin Hd. apply C'; [exact Hin|].
+             rewrite Ep in Hin. pose proof (drop_lt_ge _ _ _ _ _ A Hin). lia.
+          -- intro E. unfold doc in Ent. rewrite E in Ent. congruence.
+    - (* PScore *)
+      intros Hlo Hne. cbn [single].
+      destruct (sc_post sc) as [|[d x] rest] eqn:Ep; [congruence|].
+      assert (Hd : doc sc = d) by (unfold doc; now rewrite Ep). rewrite Hd in Hlo. subst lo.
+      assert (Hx : score sc = x) by (unfold score; now rewrite Ep). rewrite Hx.
+      change (exhaustive ((d, x) :: rest) st) with (exhaustive rest (offer st d x)).
+      pose proof A as A0. try rewrite Ep in A0. cbn in A0. destruct A0 as (_ & HdT & Arest).
+      destruct (N.eqb_spec d (last_doc_in_block sc)) as [El|Enl].
+      + specialize (IH PSkip (seek_block (d + 1) sc) (d + 1)%N (offer st d x)). cbn beta iota in IH.
+        cbn [seek_block sc_post] in IH. rewrite IH.
+        * f_equal. rewrite Ep. cbn [drop_lt]. destruct (N.ltb_spec d (d + 1)); [|lia].
+          f_equal. destruct rest as [|[d' x'] r']; [reflexivity|]. cbn in Arest. cbn [drop_lt].
+          destruct (N.ltb_spec d' (d + 1)); [lia|reflexivity].
+        * cbn [measure seek_block sc_post sc_blocks] in *. rewrite Ep in *. cbn [drop_lt length] in *.
+          destruct (N.ltb_spec d (d + 1)); [|lia].
+          pose proof (drop_lt_len (d + 1) rest). pose proof (seek_blocks_len (d + 1) (sc_blocks sc)). lia.
+        * apply wf_seek_block; [|lia]. apply (wf_raise d); [exact Hwf|lia].
+        * pose proof (seek_blocks_head (d + 1) (sc_blocks sc) B ltac:(lia)) as Hh.
+          unfold last_doc_in_block, seek_block. cbn [sc_blocks]. destruct (seek_blocks (d + 1) (sc_blocks sc)); [contradiction|exact Hh].
+      + assert (Ea : sc_post (advance sc) = rest) by (unfold advance; cbn [seek_block sc_post]; now rewrite Ep).
+        assert (Hwfa : wf d (advance sc)).
+        { unfold advance. rewrite Ep. cbn [tl].
+          split; [|split].
+          - cbn [seek_block sc_post]. eapply asc_from_weaken; [|exact Arest]. lia.
+          - cbn [seek_block sc_blocks]. now apply seek_blocks_ok.
+          - intros d' x' Hin Hd'. cbn [seek_block sc_post sc_blocks sc_max] in *.
+            pose proof (asc_from_in _ _ _ _ Arest Hin) as Hr.
+            rewrite seek_blocks_bmax.
+            + apply C; [rewrite Ep; now right|lia].
+            + destruct rest as [|[d2 x2] r2]; [contradiction|]. cbn in Arest.
+              destruct Hin as [E|Hin]; [injection E as <- <-; lia|].
+              pose proof (asc_from_in _ _ _ _ (proj2 (proj2 Arest)) Hin). lia. }
+        destruct (N.eqb_spec (doc (advance sc)) TERM) as [Et|Ent].
+        * f_equal. rewrite (doc_TERM_nil _ (proj1 Hwfa) Et) in Ea. rewrite <- Ea. reflexivity.
+        * specialize (IH PScore (advance sc) (doc (advance sc)) (offer st d x)). cbn beta iota in IH.
+          rewrite IH; [now rewrite Ea| | |reflexivity|].
+          -- cbn [measure] in *. rewrite Ea. rewrite Ep in Hm. cbn [length] in Hm.
+             unfold advance. cbn [seek_block sc_blocks]. pose proof (seek_blocks_len (match tl (sc_post sc) with (d0, _) :: _ => d0 | [] => TERM end) (sc_blocks sc)). lia.
+          -- apply (wf_raise d); [exact Hwfa|]. unfold doc. rewrite Ea. destruct rest as [|[d2 x2] r2]; [cbn in Ent; unfold doc in Ent; rewrite Ea in Ent; congruence|]. cbn in Arest. lia.
+          -- rewrite Ea. intro E. unfold doc in Ent. rewrite Ea, E in Ent. congruence.
+  Qed.
+
+  (* initial state of a real scorer: the skip reader sits on the block of the first posting *)
+  Definition scorer_ok (sc : scorer) : Prop :=
+    asc_from 0 (sc_post sc) /\ blocks_ok (sc_blocks sc) /\ (doc sc <= last_doc_in_block sc)%N.
+  (* `upper_bounds`: every block max bounds the scores of the postings of its block *)
+  Definition upper_bounds (sc : scorer) : Prop :=
+    forall d x, In (d, x) (sc_post sc) -> x <= bmax_at (sc_blocks sc) d (sc_max sc).
+
+  Definition single_fuel (sc : scorer) : nat := (2 * length (sc_post sc) + length (sc_blocks sc) + 2)%nat.
+
+  Theorem wand_single_sound : forall sc st fuel, scorer_ok sc -> upper_bounds sc -> (single_fuel sc <= fuel)%nat ->
+    block_wand_single_scorer fuel sc st = Some (exhaustive (sc_post sc) st).
+  Proof.
+    intros sc st fuel (A & B & L) U Hf. unfold block_wand_single_scorer.
+    pose proof (single_sound fuel PSkip sc (doc sc) st) as H. cbn beta iota in H. rewrite H.
+    - f_equal. f_equal. unfold doc. destruct (sc_post sc) as [|[d x] r]; [reflexivity|]. cbn [drop_lt].
+      destruct (N.ltb_spec d d); [lia|reflexivity].
+    - cbn [measure]. unfold single_fuel in Hf. pose proof (drop_lt_len (doc sc) (sc_post sc)). lia.
+    - split; [exact A|split; [exact B|]]. intros d x Hin _. now apply U.
+    - exact L.
+  Qed.
+End Collector.
+
+(* ---- a concrete collector for examples: top-1 (state = best (doc, score) so far, threshold = its score) *)
+Definition top1_state : Type := option (N * Z).
+Definition top1_thr (low : Z) (s : top1_state) : Z := match s with Some (_, x) => x | None => low end.
+Definition top1_step (s : top1_state) (d : N) (x : Z) : top1_state := Some (d, x).
+
+(* ====================================================================================
+   F3 / F6: how tantivy's stored metadata violates [upper_bounds].  Exact-rational BM25 term
+   frequency factor (src/query/bm25.rs: tf / (tf + K1 * (1 - B + B * fieldnorm / avg))), compared by
+   cross-multiplication; the idf weight is a positive common factor and is left out.
+   A "length" below is the DECODED field norm (FIELD_NORMS_TABLE[fieldnorm_id]). *)
+Local Open Scope Z_scope.
+Definition K1n : Z := Z.of_N WAND_BM25_K1_num.  Definition K1d : Z := Z.of_N WAND_BM25_K1_den.
+Definition Bn : Z := Z.of_N WAND_BM25_B_num.    Definition Bd : Z := Z.of_N WAND_BM25_B_den.
+(* tf_factor tf len (avg = an/ad) as a fraction (num, den), den > 0:
+   norm = K1n/K1d * ((Bd-Bn)/Bd + Bn/Bd * len*ad/an) = K1n * ((Bd-Bn)*an + Bn*len*ad) / (K1d*Bd*an) *)
+Definition tf_factor (tf len an ad : Z) : Z * Z :=
+  let nn := K1n * ((Bd - Bn) * an + Bn * len * ad) in
+  let nd := K1d * Bd * an in
+  (tf * nd, tf * nd + nn).
+Definition frac_lt (a b : Z * Z) : bool := Z.ltb (fst a * snd b) (fst b * snd a).
+Definition frac_le (a b : Z * Z) : bool := Z.leb (fst a * snd b) (fst b * snd a).
+
+(* the serializer keeps, per block, the (length, tf) pair maximising the factor under the SEGMENT average *)
+Fixpoint argmax_local (an ad : Z) (best : Z * Z) (l : list (Z * Z)) : Z * Z :=
+  match l with
+  | [] => best
+  | (len, tf) :: r => argmax_local an ad (if frac_lt (tf_factor (snd best) (fst best) an ad) (tf_factor tf len an ad) then (len, tf) else best) r
+  end.
+Definition stored_block_max (seg_an seg_ad : Z) (blk : list (Z * Z)) : Z * Z :=
+  match blk with [] => (0, 0) | p :: r => argmax_local seg_an seg_ad p r end.
+
+(* F3 witness: a block holding (len 10, tf 2) and (len 376, tf 6); segment average 100, searcher average 4550 *)
+Definition f3_block : list (Z * Z) := [(10, 2); (376, 6); (100, 1)].
+Definition decoded_len (id : N) : Z := Z.of_N (nth (N.to_nat id) WAND_FIELD_NORMS_TABLE 0%N).
+
+(* ====================================================================================
+   block_wand (union of >= 2 term scorers) -- fuelled transliteration of
+   src/query/boolean_query/block_wand_union.rs.  The soundness proof of this function is NOT done
+   (`_partial`): only the single-scorer path is proved (wand_single_sound); this model is exercised by
+   the examples in Properties/C06.v and the union path of the code is covered end-to-end by the harness.
+   Abstraction: `swap_remove` + `sort_by_key` are modelled as filter + stable insertion sort (the
+   order among scorers on the same document only matters for f32 rounding). *)
+Section Union.
+  Variable St : Type.
+  Variable thr : St -> Z.
+  Variable step : St -> N -> Z -> St.
+
+  Fixpoint find_before (scs : list scorer) (acc : Z) (th : Z) (i : nat) : option (nat * N) :=
+    match scs with
+    | [] => None
+    | s :: r => let acc' := acc + sc_max s in
+                if Z.ltb th acc' then (if N.eqb (doc s) TERM then None else Some (i, doc s))
+                else find_before r acc' th (S i)
+    end.
+  Fixpoint count_on (p : N) (scs : list scorer) : nat :=
+    match scs with s :: r => if N.eqb (doc s) p then S (count_on p r) else O | [] => O end.
+  (* (before_pivot_len, pivot_len, pivot_doc) *)
+  Definition find_pivot_doc (scs : list scorer) (th : Z) : option (nat * nat * N) :=
+    match find_before scs 0 th O with
+    | Some (b, p) => Some (b, (S b + count_on p (skipn (S b) scs))%nat, p)
+    | None => None
+    end.
+
+  Fixpoint insert_by_doc (s : scorer) (l : list scorer) : list scorer :=
+    match l with
+    | [] => [s]
+    | h :: r => if N.ltb (doc s) (doc h) then s :: l else h :: insert_by_doc s r
+    end.
+  Definition sort_by_doc (l : list scorer) : list scorer := fold_right insert_by_doc [] l.
+
+  (* restore_ordering(scorers, ord): bubble scorers[ord] to the right *)
+  Fixpoint bubble (s : scorer) (r : list scorer) : list scorer :=
+    match r with
+    | h :: r' => if N.leb (doc s) (doc h) then s :: r else h :: bubble s r'
+    | [] => [s]
+    end.
+  Definition restore_ordering (scs : list scorer) (ord : nat) : list scorer :=
+    match skipn ord scs with
+    | s :: r => firstn ord scs ++ bubble s r
+    | [] => scs
+    end.
+  Definition set_nth (i : nat) (s : scorer) (scs : list scorer) : list scorer :=
+    firstn i scs ++ s :: skipn (S i) scs.
+  Definition dflt : scorer := {| sc_post := []; sc_blocks := []; sc_max := 0 |}.
+
+  (* block_max_was_too_low_advance_one_scorer *)
+  Definition advance_one (scs : list scorer) (pivot_len : nat) : list scorer :=
+    let last := nth (pivot_len - 1) scs dflt in
+    (* for scorer_ord in (0..pivot_len-1).rev() *)
+    let '(to_seek, _, after) :=
+      fold_left (fun acc ord =>
+                   let '(to_seek, gmax, after) := acc in
+                   let s := nth ord scs dflt in
+                   let after' := if N.leb (last_doc_in_block s) after then last_doc_in_block s else after in
+                   if Z.ltb gmax (sc_max s) then (ord, sc_max s, after') else (to_seek, gmax, after'))
+                (rev (seq 0 (pivot_len - 1))) ((pivot_len - 1)%nat, sc_max last, last_doc_in_block last) in
+    let after1 := if N.eqb after TERM then after else (after + 1)%N in
+    let after2 := fold_left (fun a s => if N.leb (doc s) a then doc s else a) (skipn pivot_len scs) after1 in
+    restore_ordering (set_nth to_seek (seek after2 (nth to_seek scs dflt)) scs) to_seek.
+
+  (* align_scorers: Some l = all aligned (true); None' carried as (false, l) *)
+  Fixpoint align (scs : list scorer) (pivot : N) (idxs : list nat) : bool * list scorer :=
+    match idxs with
+    | [] => (true, scs)
+    | i :: r =>
+        let s' := seek pivot (nth i scs dflt) in
+        if N.eqb (doc s') pivot then align (set_nth i s' scs) pivot r
+        else if N.eqb (doc s') TERM then
+               (* swap_remove(i); restore_ordering(i) *)
+               let l := removelast scs in
+               let lst := last scs dflt in
+               (false, if Nat.eqb i (length l) then l else restore_ordering (set_nth i lst l) i)
+             else (false, restore_ordering (set_nth i s' scs) i)
+    end.
+
+  Definition advance_all_on_pivot (scs : list scorer) (pivot_len : nat) : list scorer :=
+    sort_by_doc (filter (fun s => negb (N.eqb (doc s) TERM)) (map advance (firstn pivot_len scs) ++ skipn pivot_len scs)).
+
+  Fixpoint union_loop (fuel : nat) (scs : list scorer) (st : St) : option St :=
+    match fuel with
+    | O => None
+    | S f =>
+        match find_pivot_doc scs (thr st) with
+        | None => Some st
+        | Some (before, plen, pivot) =>
+            let head := map (seek_block pivot) (firstn plen scs) in
+            let scs1 := head ++ skipn plen scs in
+            let upper := fold_left (fun a s => a + block_max s) head 0 in
+            if Z.leb upper (thr st) then union_loop f (advance_one scs1 plen) st
+            else
+              match align scs1 pivot (rev (seq 0 before)) with
+              | (false, scs2) => union_loop f scs2 st
+              | (true, scs2) =>
+                  let sc := fold_left (fun a s => a + score s) (firstn plen scs2) 0 in
+                  let st' := if Z.ltb (thr st) sc then step st pivot sc else st in
+                  union_loop f (advance_all_on_pivot scs2 plen) st'
+              end
+        end
+    end.
+
+  (* block_wand: drop terminated scorers, single-scorer special case, sort, loop *)
+  Definition block_wand (fuel : nat) (scs : list scorer) (st : St) : option St :=
+    let live := filter (fun s => N.ltb (doc s) TERM) scs in
+    match live with
+    | [s] => block_wand_single_scorer St thr step fuel s st
+    | _ => union_loop fuel (sort_by_doc live) st
+    end.
+
+  (* exhaustive union: total score per document, ascending *)
+  Fixpoint merge_post (a b : list (N * Z)) : list (N * Z) :=
+    let fix go (b : list (N * Z)) : list (N * Z) :=
+      match a, b with
+      | [], _ => b
+      | _, [] => a
+      | (da, xa) :: ra, (db, xb) :: rb =>
+          if N.ltb da db then (da, xa) :: merge_post ra b
+          else if N.ltb db da then (db, xb) :: go rb
+          else (da, xa + xb) :: merge_post ra rb
+      end in go b.
+  Definition union_postings (scs : list scorer) : list (N * Z) := fold_right (fun s acc => merge_post (sc_post s) acc) [] scs.
+End Union.
